@@ -37,15 +37,34 @@ def _op_class(tok: str, unary: bool = False) -> str | None:
 	return None
 
 
-def _const_list(cls, name: str) -> list[str] | None:
-	v = cls.class_attrs.get(name)
-	if isinstance(v, ast.List):
-		out = [const_str(e) for e in v.elts]
-		return out if all(o is not None for o in out) else None
-	if isinstance(v, ast.BinOp) and isinstance(v.op, ast.Add) and isinstance(v.left, ast.Name) and isinstance(v.right, ast.Name):
-		a, b = _const_list(cls, v.left.id), _const_list(cls, v.right.id)
-		return a + b if a is not None and b is not None else None
-	return None
+def _const_list(cls, name: str, depth: int = 0) -> list[str] | None:
+	"""value of a class constant that is a list of string constants, or a concatenation (`A + B + [...]`, `[*A, *B]`) of such constants"""
+	def val(v: ast.AST | None, d: int) -> list[str] | None:
+		if d > 6 or v is None:
+			return None
+		if isinstance(v, (ast.List, ast.Tuple)):
+			out: list[str] = []
+			for e in v.elts:
+				if isinstance(e, ast.Starred):
+					inner = val(e.value, d + 1)
+					if inner is None:
+						return None
+					out += inner
+				else:
+					c_ = const_str(e)
+					if c_ is None:
+						return None
+					out.append(c_)
+			return out
+		if isinstance(v, ast.BinOp) and isinstance(v.op, ast.Add):
+			a, b = val(v.left, d + 1), val(v.right, d + 1)
+			return a + b if a is not None and b is not None else None
+		if isinstance(v, ast.Name):
+			return val(cls.class_attrs.get(v.id), d + 1)
+		if isinstance(v, ast.Attribute) and isinstance(v.value, ast.Name) and v.value.id == cls.name:
+			return val(cls.class_attrs.get(v.attr), d + 1)
+		return None
+	return val(cls.class_attrs.get(name), depth)
 
 
 def _chain(f) -> tuple[list[tuple[str, ast.AST]], ast.AST | None]:
@@ -171,7 +190,10 @@ def run(rep: Report, tier: str) -> None:
 
 	r2 = rep.rule('C17/routing-partition', 'operator lists partition AllowOps; true division / float operands go to _calc on float(); int,int arithmetic is re-wrapped in int(); strings only concatenate; asserts are converted', floor=8)
 	r2.check(not set(arth) & set(bitw), 'disjoint', c.where, f'ArthmeticOps and BitwiseOps overlap: {sorted(set(arth) & set(bitw))}')
-	r2.check(sorted(allow) == sorted(arth + bitw), 'allow-is-union', c.where, f'AllowOps {allow} is not ArthmeticOps + BitwiseOps')
+	# as sets: a token listed twice (a separate row for the signs) allows nothing new; a token in neither row has no binary routing — what a unary one
+	# does is the business of C17/grammar-exhaustive
+	unary_only = {t for t in set(allow) - set(arth) - set(bitw) if _op_class(t) is None and _op_class(t, unary=True) is not None}
+	r2.check(set(allow) - unary_only == set(arth) | set(bitw), 'allow-is-union', c.where, f'AllowOps {sorted(set(allow))} is not the union of ArthmeticOps and BitwiseOps {sorted(set(arth) | set(bitw))}')
 	for fname, ops in (('_calc', arth), ('_bitwise', bitw)):
 		missing = sorted(set(ops) - set(branch_tokens[fname]))
 		if missing:
